@@ -10,6 +10,8 @@
 package c13
 
 import (
+	"crypto/sha256"
+	"encoding/binary"
 	"fmt"
 	"sort"
 	"strings"
@@ -258,7 +260,17 @@ func scenarios() []hx.Scenario {
 	out = append(out, cmapScenarios()...)
 	out = append(out, lockCtxScenarios()...)
 	out = append(out, outerScenarios()...)
+	// The driver hands out contiguous index ranges; the expensive scenarios
+	// (4 threads, preemption-bounded OuterCancel) would sit next to each other
+	// and make one worker the long tail. A fixed pseudo-random permutation
+	// (hash of the name) spreads them evenly; the set is unchanged.
+	sort.SliceStable(out, func(i, j int) bool { return nameHash(out[i].Name) < nameHash(out[j].Name) })
 	return out
+}
+
+func nameHash(s string) uint64 {
+	d := sha256.Sum256([]byte(s))
+	return binary.BigEndian.Uint64(d[:8])
 }
 
 func TestMC(t *testing.T) { hx.Run(t, scenarios()) }
